@@ -235,23 +235,7 @@ func checkC11(cx *Ctx, r *Report) {
 	// Absolute / Relative agree on the path
 	cx.checkEndpointFuncs(r)
 	// no matchers on routes
-	if cr := w.Func("provider.CreateRouter"); cr != nil {
-		n := 0
-		for _, c := range callsIn(cr) {
-			name := calleeName(c)
-			if strings.HasPrefix(name, "(*github.com/gorilla/mux.Route).") {
-				m := name[strings.LastIndex(name, ".")+1:]
-				switch m {
-				case "Methods", "Host", "Headers", "HeadersRegexp", "Queries", "Schemes", "MatcherFunc", "PathPrefix", "Subrouter":
-					n++
-					r.Fail("R-SIB", "route-matcher:"+m, w.InstrPos(c), "routes are restricted with "+m+"(...): a binding the metadata advertises for that location may not reach its handler")
-				}
-			}
-		}
-		if n == 0 {
-			r.Ok("R-SIB", "route-matchers", w.FnPos(cr), "routes are registered by path only")
-		}
-	}
+	cx.checkRouteMatchers(r)
 	r.Check(len(cx.routes()) >= 8, "R-ROUTES", "#routes", "", fmt.Sprintf("%d routes", len(cx.routes())), fmt.Sprintf("only %d routes found", len(cx.routes())))
 
 	// --- one certificate -----------------------------------------------------------------------------------
@@ -262,6 +246,17 @@ func checkC11(cx *Ctx, r *Report) {
 			r.Fail("R-VFG", "metadata:KeyDescriptor-certificate", "", "getMetadata fills no X509Certificate")
 		} else {
 			r.checkSources("R-VFG", "metadata:KeyDescriptor-certificate", w.InstrPos(own[0]), lso, cert, cert[:1], false)
+			// a failed key lookup must end the metadata request: otherwise a document without (or with an empty)
+			// signing KeyDescriptor is served. Every error-returning function on the certificate's way propagates
+			// the errors of what it calls.
+			msc := w.scopeOf(w.Func(kMeta))
+			for _, f := range w.sortedFuncs(msc) {
+				res := f.Signature.Results()
+				if res.Len() == 0 || !isErrorType(res.At(res.Len()-1).Type()) || !w.scopeHasCall(w.scopeOf(f), matchStorage("GetResponseSigningKey")) {
+					continue
+				}
+				cx.checkErrPropagation(r, "R-ERR", "metadata-certificate:"+w.FuncKey(f), f)
+			}
 			_, hasB64 := lso["via:(*base64.Encoding).EncodeToString"]
 			r.Check(hasB64, "R-VFG", "metadata:KeyDescriptor-encoding", w.InstrPos(own[0]), "base64 of the DER certificate", "the KeyDescriptor certificate is not the base64 encoding of the certificate bytes")
 		}
@@ -347,4 +342,77 @@ func (cx *Ctx) checkEndpointFuncs(r *Report) {
 		}
 	}
 	r.Check(okAE, "R-SIB", "Absolute-via-absoluteEndpoint", w.FnPos(abs), "Absolute uses absoluteEndpoint(host, path)", "Endpoint.Absolute no longer uses absoluteEndpoint")
+}
+
+// checkRouteMatchers: routes are registered by path only; a Methods(...) matcher is accepted only when it is given
+// constant method names that include both GET and POST (the methods of the front-channel bindings the metadata
+// advertises). Any other matcher can keep an advertised binding from reaching its handler.
+func (cx *Ctx) checkRouteMatchers(r *Report) {
+	w := cx.W
+	cr := w.Func("provider.CreateRouter")
+	if cr == nil {
+		r.Fail("R-SIB", "route-matchers", "", "anchor provider.CreateRouter not found")
+		return
+	}
+	n := 0
+	scope := map[*ssa.Function]bool{}
+	w.refClosure(cr, scope)
+	for _, fn := range w.sortedFuncs(scope) {
+		for _, c := range callsIn(fn) {
+			name := calleeName(c)
+			if !strings.HasPrefix(name, "(*github.com/gorilla/mux.Route).") && !strings.HasPrefix(name, "(*github.com/gorilla/mux.Router).") {
+				continue
+			}
+			m := name[strings.LastIndex(name, ".")+1:]
+			switch m {
+			case "Methods":
+				if ms, ok := constStringSlice(c.Common().Args[len(c.Common().Args)-1]); ok && ms["GET"] && ms["POST"] {
+					r.Ok("R-SIB", "route-matcher:Methods@"+w.InstrPos(c), w.InstrPos(c), "constant method list including GET and POST")
+					continue
+				}
+				n++
+				r.Fail("R-SIB", "route-matcher:"+m, w.InstrPos(c), "routes are restricted with Methods(...) that is not a constant list containing both GET and POST: a binding the metadata advertises for that location (HTTP-Redirect uses GET, HTTP-POST uses POST) may not reach its handler")
+			case "Host", "Headers", "HeadersRegexp", "Queries", "Schemes", "MatcherFunc", "PathPrefix", "Subrouter":
+				n++
+				r.Fail("R-SIB", "route-matcher:"+m, w.InstrPos(c), "routes are restricted with "+m+"(...): a binding the metadata advertises for that location may not reach its handler")
+			}
+		}
+	}
+	if n == 0 {
+		r.Ok("R-SIB", "route-matchers", w.FnPos(cr), "routes are registered by path only")
+	}
+}
+
+// constStringSlice: v is a slice of an array allocated in the same function whose elements are all set, once, to
+// string constants (the argument list of a variadic call written out at the call site): the set of those constants.
+func constStringSlice(v ssa.Value) (map[string]bool, bool) {
+	sl, ok := v.(*ssa.Slice)
+	if !ok {
+		return nil, false
+	}
+	al, ok := sl.X.(*ssa.Alloc)
+	if !ok {
+		return nil, false
+	}
+	out := map[string]bool{}
+	for _, ref := range nonDebugRefs(al) {
+		switch x := ref.(type) {
+		case *ssa.IndexAddr:
+			for _, r2 := range nonDebugRefs(x) {
+				st, isSt := r2.(*ssa.Store)
+				if !isSt {
+					return nil, false
+				}
+				k, isC := constString(st.Val)
+				if !isC {
+					return nil, false
+				}
+				out[k] = true
+			}
+		case *ssa.Slice:
+		default:
+			return nil, false
+		}
+	}
+	return out, len(out) > 0
 }
